@@ -1,6 +1,7 @@
 """C06 / C07 / C12 / C13 rules about editors, builders and the selector writers."""
 from sym import Explorer, explore, show, subterms, lin, lin_sub
 from pat import called, canon, is_call, deref_all, agg_variant, const_of, strip_casts, unwrap_ok
+from pat import subslice as _subslice
 from mir import natural_loops, callee_name, Expr, walk, defs
 from pathfacts import PathFacts, IntervalSet, INF
 from panics import base_of
@@ -84,18 +85,22 @@ def pair_ok(j, d):
                 return True, 'a whole container document with its own length'
             return False, f'the container entry carries the length of {show(base_of(ln[2][0]))[:30]} but the payload copied is {show(base_of(d0))[:30]}'
         return False, f'container entry length is {show(ln)[:40]}, not the length of the payload'
-    # (c) decode_jentry(read_u32(X, 4)) with data &X[8..]
+    # (c) decode_jentry(<the word at offset 4 of X>) with data X[8..], in any spelling of the two reads
     if is_call(j0, 'JEntry::decode_jentry') and j0[2]:
-        src, chain = unwrap_ok(j0[2][0])
-        src = deref_all(src)
-        if src[0] == 'call' and called(src[1], 'functions::read_u32') and len(src[2]) == 2 and const_of(src[2][1]) == 4:
-            X = base_of(src[2][0])
-            if is_call(d0, 'Index::index') and len(d0[2]) == 2:
-                r = deref_all(d0[2][1])
-                if agg_variant(r) and r[1][1].endswith('RangeFrom') and const_of(r[2][0]) == 8 and base_of(d0[2][0]) == X:
-                    return True, 'the entry word and payload of one scalar document'
-                return False, f'the scalar entry is read from {show(X)[:30]} but the payload is {show(d0)[:50]}'
-        return False, f'entry word decoded from {show(src)[:50]}'
+        from pat import word_read, subslice
+        wr = word_read(j0[2][0])
+        if wr is None:
+            src, chain = unwrap_ok(j0[2][0])
+            return None, f'entry word decoded from {show(deref_all(src))[:50]}, a read this rule does not know'
+        X, off = base_of(wr[0]), const_of(wr[1])
+        if off != 4:
+            return False, f'entry word decoded from the word at offset {show(wr[1])[:20]} of {show(X)[:30]}, not the entry word of a scalar document (offset 4)'
+        ss = subslice(d0)
+        if ss is None:
+            return None, f'the scalar entry is read from {show(X)[:30]}; the payload {show(d0)[:50]} is not a sub-slice this rule recognises'
+        if base_of(ss[0]) == X and ss[1] == 8 and ss[2] is None:
+            return True, 'the entry word and payload of one scalar document'
+        return False, f'the scalar entry is read from {show(X)[:30]} but the payload is {show(d0)[:50]}'
     return None, f'entry {show(j0)[:50]} and payload {show(d0)[:50]}: no source relation recognised'
 
 
@@ -140,7 +145,7 @@ def r06_2(ctx, run, rule='R06.2', floor=28):
                     if not (v[0] == 'agg' and v[1] == 'tuple' and len(v[2]) == 2):
                         continue
                     c0, c1 = deref_all(v[2][0]), deref_all(v[2][1])
-                    if not (is_call(c0, 'JEntry::make_container_jentry', 'JEntry::decode_jentry') and (c1[0] == 'init' or is_call(c1, 'Index::index'))):
+                    if not (is_call(c0, 'JEntry::make_container_jentry', 'JEntry::decode_jentry') and (c1[0] == 'init' or is_call(c1, 'Index::index') or _subslice(c1) is not None)):
                         continue
                     ok, why = pair_ok(v[2][0], v[2][1])
                     key = (b.path, show(v)[:120], ok, 'q')
